@@ -177,6 +177,20 @@ func judge(s snapshot, ws []wcall, rs []rcall, end endInfo) []finding {
 		j = k + 1
 	}
 	if end.MustDrain {
+		// the history saw neither Close nor budget consecutive failed redial attempts: a call that returned an error
+		// means a broken connection was given up instead of being replaced
+		for _, c := range ws {
+			if c.Ret != 0 && c.Err != "" {
+				add(5, clRedial, "call-fails-while-redial-budget-remains:write", map[string]any{"call": c, "dials": s.Dials})
+				break
+			}
+		}
+		for _, c := range rs {
+			if c.Ret != 0 && c.Err != "" {
+				add(5, clRedial, "call-fails-while-redial-budget-remains:read", map[string]any{"call": c, "dials": s.Dials})
+				break
+			}
+		}
 		if len(fs) == 0 && j < len(exp) {
 			add(4, clReads, "read-lost:delivered-message-never-returned", map[string]any{"missing": head(exp[j:], 8), "returned": len(got), "delivered": len(exp)})
 		}
@@ -247,7 +261,9 @@ func TestC18OracleSelf(t *testing.T) {
 		{"good", snapshot{Dials: okDials, Logs: [][]acc{mk(msgOf(0, 0)), mk(msgOf(1, 0), msgOf(0, 1), pongMsg)},
 			Dlvs: []dlv{{Msg: "d0"}, {Msg: pingMsg, Handshake: true}, {Msg: pingMsg}, {Msg: "d1"}}},
 			[]wcall{w(0, 0, 1, 2, ""), w(1, 0, 1, 9, ""), w(0, 1, 3, 10, "")},
-			[]rcall{{Ret: 1, Msg: "d0"}, {Ret: 2, Msg: "d1"}, {Ret: 3, Err: "x"}}, endInfo{MustDrain: true}, ""},
+			[]rcall{{Ret: 1, Msg: "d0"}, {Ret: 2, Msg: "d1"}, {Ret: 0}}, endInfo{MustDrain: true}, ""},
+		{"gave-up", snapshot{Dials: okDials, Logs: [][]acc{mk()}}, []wcall{w(0, 0, 1, 2, "e")}, nil, endInfo{MustDrain: true}, "call-fails-while-redial-budget-remains:write"},
+		{"gave-up-r", snapshot{Dials: okDials, Logs: [][]acc{mk()}}, nil, []rcall{{Ret: 3, Err: "x"}}, endInfo{MustDrain: true}, "call-fails-while-redial-budget-remains:read"},
 		{"lost", snapshot{Dials: okDials, Logs: [][]acc{mk()}}, []wcall{w(0, 0, 1, 2, "")}, nil, endInfo{}, "write-lost"},
 		{"errlost-ok", snapshot{Dials: okDials, Logs: [][]acc{mk()}}, []wcall{w(0, 0, 1, 2, "e"), w(0, 1, 3, 0, "")}, nil, endInfo{}, ""},
 		{"dup", snapshot{Dials: okDials, Logs: [][]acc{mk(msgOf(0, 0)), mk(msgOf(0, 0))}}, []wcall{w(0, 0, 1, 2, "")}, nil, endInfo{}, "write-duplicated:nil"},
